@@ -194,3 +194,48 @@ Example C18_runaway_key_functions_end_in_depth_error :
     [runaway_by B_sort_by; runaway_by B_group_by; runaway_by B_count_by; runaway_by B_map;
      runaway_by B_filter; runaway_by B_every; runaway_by B_some; runaway_sort_by_lambda] = true.
 Proof. vm_compute. reflexivity. Qed.
+
+(* ---- the same for the evaluator with EVERY built-in of the table and `^` (EvalAll.v: the 15 library-
+   backed built-ins and to_string / join of functions through the oracle record o), for every oracle:
+   no arm swallows the depth error of its callback, hence the dichotomy at the limit ---- *)
+Require Import Blots.EvalAll Blots.proofs.AllInst.
+Theorem C18_no_builtin_swallows_the_depth_error_all : forall o,
+  builtin_le (builtin_all o) /\ binop_le (binop_all o).
+Proof. exact (fun o => conj (builtin_all_le o) (binop_all_le o)). Qed.
+Check C18_no_builtin_swallows_the_depth_error_all : forall o,
+  builtin_le (builtin_all o) /\ binop_le (binop_all o).
+Print Assumptions C18_no_builtin_swallows_the_depth_error_all.
+
+Theorem C18_limit_dichotomy_all : forall o release c e,
+  fst (eval_top release (binop_all o) (builtin_all o) c e) = ErrDepth \/
+  forall d', LIMIT <= d' ->
+    evalD release (binop_all o) (builtin_all o) d' c e = eval_top release (binop_all o) (builtin_all o) c e.
+Proof.
+  intros o release c e.
+  destruct (fst (eval_top release (binop_all o) (builtin_all o) c e)) eqn:E;
+    try (right; intros d' Hd;
+         apply (evalD_depth_independent release (binop_all o) (builtin_all o) (binop_all_le o) (builtin_all_le o));
+         [exact Hd|unfold eval_top in E; rewrite E; discriminate]).
+  left; reflexivity.
+Qed.
+Check C18_limit_dichotomy_all : forall o release c e,
+  fst (eval_top release (binop_all o) (builtin_all o) c e) = ErrDepth \/
+  forall d', LIMIT <= d' ->
+    evalD release (binop_all o) (builtin_all o) d' c e = eval_top release (binop_all o) (builtin_all o) c e.
+Print Assumptions C18_limit_dichotomy_all.
+
+Theorem C18_depth_error_is_genuine_all : forall o release c e d,
+  d <= LIMIT -> fst (eval_top release (binop_all o) (builtin_all o) c e) = ErrDepth ->
+  fst (evalD release (binop_all o) (builtin_all o) d c e) = ErrDepth.
+Proof.
+  intros o release c e d Hd H.
+  destruct (fst (evalD release (binop_all o) (builtin_all o) d c e)) eqn:E; try reflexivity;
+    (assert (Hn : fst (evalD release (binop_all o) (builtin_all o) d c e) <> ErrDepth) by (rewrite E; discriminate);
+     pose proof (evalD_depth_independent release (binop_all o) (builtin_all o) (binop_all_le o) (builtin_all_le o)
+                   d LIMIT c e Hd Hn) as Heq;
+     unfold eval_top in H; rewrite Heq, E in H; discriminate).
+Qed.
+Check C18_depth_error_is_genuine_all : forall o release c e d,
+  d <= LIMIT -> fst (eval_top release (binop_all o) (builtin_all o) c e) = ErrDepth ->
+  fst (evalD release (binop_all o) (builtin_all o) d c e) = ErrDepth.
+Print Assumptions C18_depth_error_is_genuine_all.
